@@ -43,6 +43,8 @@ BOOL = TPrim('bool')
 REAL = TPrim('real')
 STR = TPrim('str')
 BYTES = TPrim('bytes')     # modelled as a z3 String of byte-chars
+PATH = TPrim('path')     # file-system path: only equality and numbering matter (uninterpreted sort)
+PStr = z3.DeclareSort('PStr')
 NONE = TPrim('none')
 VAL = TPrim('val')         # dynamic
 EXC = TPrim('exc')         # python-side exception object (never stored in z3)
@@ -163,6 +165,8 @@ def zsorts(ty):
         return [z3.RealSort()]
     if ty in (STR, BYTES):
         return [z3.StringSort()]
+    if ty == PATH:
+        return [PStr]
     if ty == NONE:
         return []
     if ty == VAL:
